@@ -14,16 +14,51 @@ from .facts import DB
 from .report import Ctx, VERIF, load_known
 
 
-def main(argv):
-    sys.path.insert(0, os.path.join(VERIF, "silence"))
-    import refactors
-    groups = set(argv) or None
+def plan_rounds(refactors, groups):
+    """Partition the groups into rounds such that the groups of one round apply together (two refactors of the same
+    site cannot)."""
+    order = []
+    for g, *_ in refactors.REFACTORS:
+        if (not groups or g in groups) and g not in order:
+            order.append(g)
+    rounds = []
+    left = order
+    while left:
+        files = {}
+        took, rest = [], []
+        for g in left:
+            trial = dict(files)
+            ok = True
+            for g2, rel, old, new, cnt in refactors.REFACTORS:
+                if g2 != g:
+                    continue
+                s = trial.get(rel)
+                if s is None:
+                    s = open(os.path.join(extract.REPO, rel)).read()
+                if s.count(old) != cnt:
+                    ok = False
+                    break
+                trial[rel] = s.replace(old, new)
+            if ok:
+                files = trial
+                took.append(g)
+            else:
+                rest.append(g)
+        if not took:
+            print("silence: refactors %s do not apply to the tree" % rest)
+            return None
+        rounds.append(took)
+        left = rest
+    return rounds
+
+
+def run_round(refactors, groups):
     root = mutate.make_scratch()
     out = tempfile.mkdtemp(prefix="hw-facts-", dir=mutate.SCRATCH_BASE)
     try:
         n = 0
         for g, rel, old, new, cnt in refactors.REFACTORS:
-            if groups and g not in groups:
+            if g not in groups:
                 continue
             p = os.path.join(root, rel)
             s = open(p).read()
@@ -59,11 +94,24 @@ def main(argv):
             for o in viol:
                 bad += 1
                 print("     FALSE ALARM %s\n        %s\n        at %s" % (o["key"], o["what"][:300], o["where"]))
-        print("silence test: %d refactor edits applied, %d false alarms" % (n, bad))
+        print("silence round %s: %d refactor edits applied, %d false alarms" % (",".join(groups), n, bad))
         return 1 if bad else 0
     finally:
         shutil.rmtree(root, ignore_errors=True)
         shutil.rmtree(out, ignore_errors=True)
+
+
+def main(argv):
+    sys.path.insert(0, os.path.join(VERIF, "silence"))
+    import refactors
+    rounds = plan_rounds(refactors, set(argv) or None)
+    if rounds is None:
+        return 2
+    rc = 0
+    for r in rounds:
+        rc = max(rc, run_round(refactors, r))
+    print("silence test: %d round(s), %s" % (len(rounds), "silent" if rc == 0 else "NOT silent (rc %d)" % rc))
+    return rc
 
 
 if __name__ == "__main__":
